@@ -88,6 +88,18 @@ PROPS = {
         "partial": "destination modelled as the reference log (equal to the WAL by C05; raft-boltdb and InmemStore destinations are covered by the correspondence only); progress-channel closure is checked on the real code by the monitor, not modelled; CopyStable aborts on a source that reports absent keys as an error (raft-boltdb, InmemStore) — an absent standard key has no value to transfer, recorded as an observation in DESIGN §7 (O15)",
         "assumptions": [],
     },
+    "C06": {
+        "suites": ["conc"],
+        "race": True,
+        "partial": "theorems hold for every schedule of the small-step model Model/Conc.lean (any number of readers, any queue of truncations/rotations, Close), whose steps are single shared-memory accesses under sequential consistency; the real code is tied to it by regenerated facts and by forced schedules (yield points of the verif build tag, simfs hooks) whose outcomes are compared with the model, and explored by free-running stress with a version-interval oracle on every read; weak-memory behaviour of Go's sync/atomic is trusted (SC for atomics), the race-detector run of the thorough tier is supporting exploration; visibility-only-once-durable is the segment-level theorem C01.visible_only_after_sync plus the regenerated fact that OffsetForFrame is gated on the commit index, exercised by the fsync-window schedule",
+        "assumptions": ["Go sync/atomic operations are sequentially consistent; sync.Mutex and channels behave as specified", "segment ids are never reused (C13)"],
+    },
+    "C14": {
+        "suites": ["conc"],
+        "race": True,
+        "partial": "no_panic / closed_is_final / close_releases_all are theorems over every schedule of Model/Conc.lean for the reader path against the writer's state changes and Close; the writer-side clauses (StoreLogs/DeleteRange/Set racing Close return ErrClosed, a rotation waiter is woken) are tied by three regenerated facts about wal.go and decided on the real code by forced schedules at every yield point, including Close running inside the window in which awaitRotationLocked has dropped the write lock",
+        "assumptions": ["Go sync/atomic operations are sequentially consistent; sync.Mutex and channels behave as specified"],
+    },
     "C20": {
         "suites": ["wal", "verifier"],
         "partial": "static half (every emitting call site is declared, right kind, literal name, no duplicates) is a theorem over the regenerated call-site table; the dynamic half (counters equal true totals) is decided by the correspondence of Model.Wal/Model.Verifier counters with the real AtomicCollector after every case plus the monitor that recomputes the totals from API results; counters_exact is proved for every run over the reference log (truncation counters modulo 2^64, as in the code); rotations are compared through the correspondence only",
